@@ -24,7 +24,26 @@ TEMPLATES = [
     "def acc = ''; for x in S do acc = acc + x end; acc", "sum(N)", "string(N)", "[x for x in N]", "string(MIX)", "[x for x in MIX]", "list(MIX)",
     "string(<<x for x in S if x > 'f'>>)", "require List; List->first(list(S))", "require List; List->last(list(S))", "compare(S, T)", "S == T", "S < T",
     "string(sorted(list(S) + list(T)))", "def c = 0; for x in S do c += length(x) end; c", "while_result(S)",
+    "sorted(S, key = fn(x) length(x))", "sorted(S, cmp = fn(a, b) compare(length(a), length(b)))", "sorted(S + T, key = fn(x) 0)", "sorted(M, key = fn(x) 0)",
+    "[0] + S", "def l = [0]; l += S; l", "add([0], S)", "[0] + M", "list(S) + T", "[] + N", "[0] - S", "append_all([0], S)", "def l = [0]; append_all(l, M); l",
+    "S + list(T)", "string(S * 1)", "reverse(S)", "sublist(S, 1)", "S[0]", "first(S)", "last(S)", "[S[i] for i in range(length(S))]", "map_list(S, fn(x) x + '!')" ,
+    "filter(S, fn(x) length(x) > 2)", "reduce(S, fn(a, b) a + b)", "reduce(list(S), fn(a, b) a + b)", "find(S, 'fig')", "zip(S, T)", "enumerate(S)", "pairs(S)", "chunks(S, 2)",
+    "unique(S + T)", "flatten([S, T])", "join(S, '-')", "count(S, 'fig')", "any(S, fn(x) x > 'm')", "grouped(S, key = fn(x) length(x))", "max(S, key = fn(x) length(x))",
+    "min(S, key = fn(x) length(x))", "max(S)", "min(M)", "sum(N)", "interval(1, 3) + N", "insert_at([0], 0, S)", "def l = list(S); delete_at(l, 0)", "remove(S, first(list(S))); string(S)",
 ]
+
+
+def sweep_programs():
+    """every function of the (legacy) base environment applied to sets / maps of strings in several argument shapes"""
+    import re as _re
+    from ckl.interpreter import Interpreter
+    it = Interpreter(True, True)
+    skip = _re.compile(r"random|timestamp|^now$|^date$|sleep|exit|readln|^read|input|execute|^run$|^eval$|bind_native|set_seed|^info$|^ls$|^body$")
+    names = sorted(n for n in it.base_environment.getSymbols() if it.base_environment.get(n).isFunc() and not skip.search(n))
+    header = ("def S = <<'pear', 'fig', 'apple', 'kiwi', 'plum', 'a', 'B', 'lime', 'nut'>>; def T = <<'yam', 'fig', 'pea', 'oat', 'rye'>>; "
+              "def M = <<<'pear' => 1, 'fig' => 2, 'apple' => 3, 'kiwi' => 4, 'plum' => 5, 'a' => 6>>>; def K = fn(x) length(x); ")
+    shapes = ["{f}(S)", "{f}(S, T)", "{f}(M)", "{f}([0], S)", "{f}(S, K)", "{f}(K, S)", "{f}(S, 2)", "{f}(S, key = K)", "{f}(S, 'fig')", "{f}(M, 'fig')", "{f}(S, T, M)"]
+    return [header + "string(" + sh.format(f=n) + ")" for n in names for sh in shapes]
 
 RUNNER = r'''
 import json, sys, signal
@@ -37,8 +56,9 @@ class TimeoutError(BaseException): pass
 def handler(signum, frame): raise TimeoutError()
 signal.signal(signal.SIGALRM, handler)
 out = []
+it = Interpreter(True, True)
 for src in progs:
-    it = Interpreter(True, True)
+    it.environment.map.clear()
     o = StringOutput(); it.setStandardOutput(o); it.setStandardInput(StringInput(""))
     signal.setitimer(signal.ITIMER_REAL, 5, 0.5)
     try:
@@ -81,7 +101,7 @@ def gen_programs(ctx, n):
                   f"def M2 = <<<'fig' => 1, 'kiwi' => 2, 'zz' => 3, 'aa' => 4>>>; "
                   f"def N = {lit_set(n_items)}; def MIX = <<{', '.join(lit(x) if x != 'TRUEX' else 'TRUE' for x in mix)}>>; "
                   "def while_result(q) do def l = list(q); def i = 0; def out = []; while i < length(l) do append(out, l[i]); i += 1 end; out end; ")
-        for t in (TEMPLATES if ctx.thorough else rng.sample(TEMPLATES, 30)):
+        for t in (TEMPLATES if ctx.thorough else rng.sample(TEMPLATES, 40)):
             progs.append(header + t)
     return progs
 
@@ -89,9 +109,11 @@ def gen_programs(ctx, n):
 def run(ctx):
     nseeds = 32 if ctx.thorough else 8
     progs = gen_programs(ctx, 40 if ctx.thorough else 16)
+    core.use_repo()
+    progs += sweep_programs()
     ctx.rule = ("generated programs that build sets and maps of strings and mixed scalars (3..9 elements) and send them through every "
                 "iteration, conversion, spread, destructuring, rendering and comprehension path, the set/list/stat library functions and the "
-                f"seeded random functions; each program executed in {nseeds} fresh processes with different PYTHONHASHSEED values; value, "
+                f"seeded random functions, plus every function of the base environment applied to sets and maps of strings in 11 argument shapes; each program executed in {nseeds} fresh processes with different PYTHONHASHSEED values; value, "
                 "printed output and error must be identical across all of them and equal to the model evaluator's (seed-free) answer; "
                 "non-trivial = a collection of >= 3 string elements (their hash order differs between seeds)")
     tmp = tempfile.mkdtemp(prefix="c12")
@@ -138,22 +160,23 @@ def run(ctx):
         idx = list(range(len(progs)))
         reqs = [session.model_request([progs[i]], legacy=True) for i in idx]
         resp = core.run_driver(reqs)
-        for i, r in zip(idx, resp):
-            model, _ = session.parse_model_session(r)
-            m = model[0]
-            ctx.count("model_programs")
-            if m[0][0] == 'fail':
-                ctx.count("model_abstains")
-                continue
-            s = session.ImplSession(legacy=True)
-            try:
+        s = session.ImplSession(legacy=True)
+        try:
+            for i, r in zip(idx, resp):
+                model, _ = session.parse_model_session(r)
+                m = model[0]
+                ctx.count("model_programs")
+                if m[0][0] == 'fail':
+                    ctx.count("model_abstains")
+                    continue
+                s.it.environment.map.clear()
                 out = s.run(progs[i])
-            finally:
-                s.close()
-            d = session.compare((out[0], out[1], ()), (m[0], m[1], ()))
-            if d:
-                ctx.disagreements += 1
-                ctx.violation("correspondence", f"{progs[i][-100:]}: {d}", {"op": "program", "src": progs[i], "correspondence": "Ckl.eval vs Interpreter.interpret"})
+                d = session.compare((out[0], out[1], ()), (m[0], m[1], ()))
+                if d:
+                    ctx.disagreements += 1
+                    ctx.violation("correspondence", f"{progs[i][-100:]}: {d}", {"op": "program", "src": progs[i], "correspondence": "Ckl.eval vs Interpreter.interpret"})
+        finally:
+            s.close()
     ctx.sample({"program": progs[0][-80:], "seeds": seeds[:4], "result": base[0][:2]})
     ctx.sample({"program": progs[1][-80:], "result": base[1][:2]})
     common.replay_known(ctx)
